@@ -473,6 +473,18 @@ def units(tier, seed):
         shards[i].append(s)
         loads[i] += w(s)
     us = [Unit(f"catalogue_{i:02d}", "c02:unit_specs", {"specs": sh}, loads[i]) for i, sh in enumerate(shards) if sh]
+    # variants of one family that share (n, k) but differ in information set / options, in ONE process and in both orders: class- or
+    # module-level tables keyed too coarsely (by mu, by (n,k)) would leak from one encoder or decoder to the next
+    def fam(pred):
+        v = [s for s in specs if pred(s)]
+        return v + v[::-1] + v[:1]
+    groups = {"hamming3": lambda s: s["family"] == "hamming" and s["mu"] == 3, "hamming4": lambda s: s["family"] == "hamming" and s["mu"] == 4,
+              "cyclic7": lambda s: s["family"] == "cyclic" and s["n"] == 7, "bch4": lambda s: s["family"] == "bch" and s["mu"] == 4,
+              "rm3": lambda s: s["family"] == "rm" and s["m"] == 3, "small": lambda s: s["family"] in ("repetition", "spc") and s.get("n", s.get("k", 0)) <= 5}
+    for gname, pred in groups.items():
+        g = fam(pred)
+        if g:
+            us.append(Unit(f"cross_instance_{gname}", "c02:unit_specs", {"specs": g}, 2 * len(g)))
     for sh in range(2):
         us.append(Unit(f"generated_{sh}", "c02:unit_generated", {"n_cases": 150 if T else 15, "shard": sh}, 5))
     return us
